@@ -16,6 +16,7 @@ F_NIL = "C10-negated-matchall-showseries"
 F_DUP = "C10-cacheclear-unflushed"
 F_LIT = "C10-regex-literal-overwrites-filter-value"
 F_STALE = "C10-tagfilter-cache-stale-after-background-flush"
+F_IN = "C10-in-predicate-ignored-on-showseries-path"
 BASE = (1 << 40) | 1000          # logical clock 1, sequence 1000: the harness' initial generator value
 
 
@@ -105,6 +106,25 @@ def expr_coq(x, it, choose):
             acc = "(%s %s %s)" % ("Or" if o == "in" else "And", t2, acc)
         return "(Paren %s)" % acc
     return "(Atom %d %s %d)" % (k, "Re" if o == "re" else "Nre", it.pat(v, choose(x)))
+
+
+TRUE_EXPR = "(Or (Atom 1 Eq 0) (Atom 1 Neq 0))"        # true of every tag set (key 1 is interned as "host" by the callers)
+
+
+def has_in(x):
+    return any(a["o"] in ("in", "notin") for a in atoms_of(x, []))
+
+
+def expr_coq_in_true(x, it):
+    """the predicate with every IN / NOT IN atom read as 'true' (what an evaluator without a case for set literals does)"""
+    t = x["t"]
+    if t in ("and", "or"):
+        return "(%s %s %s)" % ("And" if t == "and" else "Or", expr_coq_in_true(x["l"], it), expr_coq_in_true(x["r"], it))
+    if t == "paren":
+        return "(Paren %s)" % expr_coq_in_true(x["l"], it)
+    if x["o"] in ("in", "notin"):
+        return TRUE_EXPR
+    return expr_coq(x, it, lambda a: 0)
 
 
 def atoms_of(x, out):
@@ -237,6 +257,10 @@ def case_coq(c, it_factory=Intern):
                         alts.append(expr_coq(x, it, lambda a: sel.get(id(a), 0)))
             if o.get("only2"):
                 ops.append("CQuery2 %d %s %s %s" % (m, e, coq_list(alts), coq_list(map(str, o.get("ids2") or []))))
+            elif x is not None and has_in(x):
+                it.str("host")
+                ops.append("CQueryA %d %s %s %s %s %s" % (m, e, coq_list([expr_coq_in_true(x, it)]), coq_list(alts),
+                                                          coq_list(map(str, o.get("ids") or [])), coq_list(map(str, o.get("ids2") or []))))
             else:
                 ops.append("CQuery %d %s %s %s %s" % (m, e, coq_list(alts), coq_list(map(str, o.get("ids") or [])),
                                                       coq_list(map(str, o.get("ids2") or []))))
@@ -256,7 +280,12 @@ def case_coq(c, it_factory=Intern):
                     ss.append(series_coq(s2["mst"], s2.get("tags") or [], it))
             vals = ["(%d, %s)" % (it.str(kk), coq_list([str(it.val(v)) for v in vv])) for kk, vv in sorted((o.get("values") or {}).items())]
             vcs = ["(%d, %d)" % (it.str(kk), n2) for kk, n2 in sorted((o.get("vcard") or {}).items())]
-            ops.append("CCond %d %s %d %s %s %s" % (m, e, o.get("card", 0), coq_list(ss), coq_list(vals), coq_list(vcs)))
+            if x is not None and has_in(x):
+                it.str("host")
+                ops.append("CCondA %d %s %s %d %s %s %s" % (m, e, coq_list([expr_coq_in_true(x, it)]), o.get("card", 0), coq_list(ss),
+                                                            coq_list(vals), coq_list(vcs)))
+            else:
+                ops.append("CCond %d %s %d %s %s %s" % (m, e, o.get("card", 0), coq_list(ss), coq_list(vals), coq_list(vcs)))
         elif k == "list":
             ss = []
             for s in o.get("series") or []:
@@ -428,6 +457,10 @@ def sources_of_failure(cv, f, classes, cr_current):
             src.add(F_LIT)
         if f.get("path") == 2 and opi in cv.stale:
             src.add(F_STALE)
+        # the show-series / drop-series evaluator has no case for a set literal and answers "every series of the measurement" for
+        # the IN / NOT IN atom; the model (IN = OR of =) reproduces the implementation when that atom is read as "true"
+        if f.get("path") == 1 and any(a["o"] in ("in", "notin") for a in atoms_of(x, [])) and opi in getattr(cv, "in_true_ops", ()):
+            src.add(F_IN)
         if dups:
             src.add(F_DUP)
         if not src:
@@ -438,6 +471,8 @@ def sources_of_failure(cv, f, classes, cr_current):
 
 
 WHAT = {
+    "C10-in-predicate-ignored-on-showseries-path": "show-series / drop-series path: tag IN (..) / NOT IN (..) is answered with every series of the measurement "
+                                                   "(DROP SERIES ... WHERE tag IN ('nosuch') drops them all)",
     "C10-tagfilter-cache-stale-after-background-flush": "select path: after the index table's periodic flush the tag-filter result cache keeps answering "
                                                         "without the newly visible series (the invalidating flush callback is deferred up to 10 s)",
     "C10-regex-anchoring": "regex tag predicate is matched anchored by the index (e.g. /[wd]/, /web|db/ select only whole-value matches)",
@@ -608,7 +643,7 @@ def main(ck):
                 # reduces to a pure literal (tf.value is overwritten), else the pattern's source text
                 for p, l in zip(patlist, lits):
                     keytext[p] = "".join(chr(x) for x in l) if l is not None else p
-    stale = {F_ANCH, F_EXPL, F_ESC, F_NIL, F_DUP, F_LIT, F_STALE}
+    stale = {F_ANCH, F_EXPL, F_ESC, F_NIL, F_DUP, F_LIT, F_STALE, F_IN}
     nviol = 0
     tree_regex_current = False
     if ok:
@@ -723,8 +758,9 @@ def main(ck):
         m_rep = evaluate(allidx, (False, False, False), "rep")
         if m_cur is not None and m_rep is not None:
             evaluated = True
-            rest = [i for i in allidx if (i in m_cur and i in m_rep) or
-                    any(f["kind"] == "search-not-bruteforce" and f.get("path") == 1 for f in cases[i]["oracle"])]
+            def real(v):
+                return [x for x in v if x[1] != 30]         # code 30 is information, not a mismatch
+            rest = [i for i in allidx if real(m_cur.get(i, [])) and real(m_rep.get(i, []))]
             others = {}
             for var in ALLV:
                 if var in ((True, True, True), (False, False, False)):
@@ -765,11 +801,15 @@ def main(ck):
         # the select path's tag-filter cache is outside the model: a code-5 mismatch at an op matching the collision signature is
         # attributed to it when the oracle failed there on path 2 (then the finding explains it)
         def residual(v):
-            return [(b, code) for b, code in v if not (code == 5 and (b in cv.collisions or b in cv.stale))]
+            # code 30 is information (the show-series path equals the predicate with its IN atoms read as true), not a mismatch
+            return [(b, code) for b, code in v if code != 30 and not (code == 5 and (b in cv.collisions or b in cv.stale))]
         matching = [k for k, v in variants.items() if not residual(v)]
         corr_ok = evaluated and bool(matching)
         v_cur, v_rep = variants.get((True, True, True), []), variants.get((False, False, False), [])
         cr_current = bool(matching) and all(k[2] for k in matching)
+        cv.in_true_ops = set()
+        for kk in matching:
+            cv.in_true_ops |= {b for b, code in variants[kk] if code == 30}
         # ops at which the nil handling of the show-series path is what makes the model reproduce the implementation
         nil_ops = set()
         for (cl, cn, cr) in matching:
